@@ -2,7 +2,7 @@
 """Copy confirmed seeded changes from the scratch worktrees into /verif/seeded/<id>-<variant>/."""
 import json, os, shutil, glob, subprocess, sys
 detected = json.load(open('/verif/seeded/detected.json')) if os.path.exists('/verif/seeded/detected.json') else {}
-for d in sorted(glob.glob('/tmp/mut/C*/out/*')) + sorted(glob.glob('/tmp/mut2/C*/out/*')) + sorted(glob.glob('/tmp/mut3/C*/out/*')) + sorted(glob.glob('/tmp/mut4/C*/out/*')) + sorted(glob.glob('/tmp/mut5/C*/out/*')) + sorted(glob.glob('/tmp/mut6/C*/out/*')) + sorted(glob.glob('/tmp/mut7/C*/out/*')):
+for d in sorted(glob.glob('/tmp/mut/C*/out/*')) + sorted(glob.glob('/tmp/mut2/C*/out/*')) + sorted(glob.glob('/tmp/mut3/C*/out/*')) + sorted(glob.glob('/tmp/mut4/C*/out/*')) + sorted(glob.glob('/tmp/mut5/C*/out/*')) + sorted(glob.glob('/tmp/mut6/C*/out/*')) + sorted(glob.glob('/tmp/mut7/C*/out/*')) + sorted(glob.glob('/tmp/mut8/C*/out/*')):
     if not os.path.isdir(d) or not os.path.exists(d + '/patch.diff'):
         continue
     pid = d.split('/')[3]
@@ -19,6 +19,8 @@ for d in sorted(glob.glob('/tmp/mut/C*/out/*')) + sorted(glob.glob('/tmp/mut2/C*
         var = 'r6' + var
     if d.startswith('/tmp/mut7/'):
         var = 'r7' + var
+    if d.startswith('/tmp/mut8/'):
+        var = 'r8' + var
     conf = json.load(open(d + '/confirm.json')) if os.path.exists(d + '/confirm.json') else {}
     if not conf.get('confirmed'):
         continue
